@@ -89,7 +89,7 @@ def run(tier: str, seed: int) -> int:
         # site 2 once more through the real command line (option converters included): names with capitals, blanks, non-ASCII
         from concurrent.futures import ThreadPoolExecutor
         cli_pairs = [("NordicSemi.com", "Sample_Root"), ("ACME", "cls"), ("Acme-IoT.Example", "Sensor_v2"), (" padded ", " cls "), ("é中", "Ünï"), ("nordicsemi.com", "UPPER"),
-                     ("7d9f1e2a-4b3c-4d5e-8f60-a1b2c3d4e5f6", "0x10")]
+                     ("7d9f1e2a-4b3c-4d5e-8f60-a1b2c3d4e5f6", "0x10"), ("@acme", "@home_sensor"), ("+v", "%c")]
 
         def cli_one(k):
             v, c = cli_pairs[k]
